@@ -103,19 +103,24 @@ func main() {
 }
 
 func startServer(c *vf.Ctx, bin string, w int) (*srvBox, error) {
-	dir := filepath.Join(c.Scratch, fmt.Sprintf("srv%d", w))
-	_ = os.RemoveAll(dir)
-	s := proc.New(proc.Config{Bin: bin, Dir: dir, IP: proc.IP(18, w)})
-	if err := s.Start(); err != nil {
-		return nil, err
+	var lastErr error
+	for attempt := 0; attempt < 2; attempt++ { // the machine is shared: one retry
+		dir := filepath.Join(c.Scratch, fmt.Sprintf("srv%d", w))
+		_ = os.RemoveAll(dir)
+		s := proc.New(proc.Config{Bin: bin, Dir: dir, IP: proc.IP(18, w)})
+		if err := s.Start(); err != nil {
+			return nil, err
+		}
+		b := &srvBox{s: s}
+		b.limit()
+		if err := s.WaitReady(150 * time.Second); err != nil {
+			s.Kill()
+			lastErr = err
+			continue
+		}
+		return b, nil
 	}
-	b := &srvBox{s: s}
-	b.limit()
-	if err := s.WaitReady(120 * time.Second); err != nil {
-		s.Kill()
-		return nil, err
-	}
-	return b, nil
+	return nil, lastErr
 }
 
 func worker(c *vf.Ctx, bin string, w, workers, nsets, nexpr int) {
@@ -150,7 +155,7 @@ func worker(c *vf.Ctx, bin string, w, workers, nsets, nexpr int) {
 		run := &setRun{c: c, set: set, ref: ref, og: &og{b: box, s: s, db: fmt.Sprintf("prom%d", idx)}}
 		box.onUp = func() bool {
 			c.Count("server-restarts-after-unanswered-query", 1)
-			return (&setRun{c: c, set: set, og: &og{s: s, db: run.og.db}}).waitVisible()
+			return run.waitVisible()
 		}
 		run.ingest = []string{"one-request/memtable", "time-chunked/memtable", "time-chunked/flush-mid", "time-chunked/flush-all"}[rng.IntN(4)]
 		if ok := run.load(); ok {
@@ -230,12 +235,43 @@ func (r *setRun) load() bool {
 // waitVisible: visibility rule — every series must have been returned by a PromQL query.
 func (r *setRun) waitVisible() bool {
 	c := r.c
-	probeT := r.set.End + 10*60*1000
+	plain := &og{s: r.og.s, db: r.og.db} // no server lock: also called while restarting
+	// One probe per shard group: the series index is per shard, so a series visible through
+	// the samples of one shard may still be invisible in the other. count_over_time over
+	// exactly the shard's part of the data must return every series that has a (non-stale)
+	// sample there.
+	type probe struct {
+		expr string
+		at   int64
+		want int
+	}
+	var probes []probe
+	lo, hi := r.set.T0-120000, r.set.End+120000
+	bounds := [][2]int64{{lo, hi}}
+	if shardBoundary > lo && shardBoundary <= hi {
+		bounds = [][2]int64{{lo, shardBoundary - 1}, {shardBoundary, hi}}
+	}
+	for m, ss := range r.set.byMetric {
+		for _, bd := range bounds {
+			want := 0
+			for _, s := range ss {
+				for i, t := range s.T {
+					if t >= bd[0] && t <= bd[1] && !isStale(s.V[i]) {
+						want++
+						break
+					}
+				}
+			}
+			if want > 0 {
+				probes = append(probes, probe{fmt.Sprintf("count_over_time(%s[%dms])", m, bd[1]-bd[0]+1), bd[1], want})
+			}
+		}
+	}
 	for attempt := 0; attempt < 300; attempt++ {
 		all := true
-		for m, ss := range r.set.byMetric {
-			res, err := r.og.instant("count_over_time("+m+"[3h])", probeT)
-			if err != nil || res.Err != "" || len(res.Series) < len(ss) {
+		for _, p := range probes {
+			res, err := plain.instant(p.expr, p.at)
+			if err != nil || res.Err != "" || len(res.Series) < p.want {
 				all = false
 				break
 			}
@@ -328,6 +364,15 @@ func (r *setRun) evalExpr(n *Node, p EvalParams) {
 	n.Constructs(tags)
 	for t := range tags {
 		c.Count("expressions-by-construct/"+t, 1)
+	}
+	if twoShards(n, "instant", p) {
+		c.Count("evaluations-with-window-across-shard-group-boundary", 1)
+	}
+	if twoShards(n, "range", p) {
+		c.Count("evaluations-with-window-across-shard-group-boundary", 1)
+	}
+	if rangeBelowStep(n, p) {
+		c.Count("range-evaluations-with-range<step", 1)
 	}
 	c.Count("instant-class:"+p.IClass, 1)
 	c.Count("step-class:"+p.StepClass, 1)
@@ -503,7 +548,15 @@ func (r *setRun) report(full, n *Node, mode string, p EvalParams, d *Diff, want,
 	if kind == "error" || kind == "instant-error-at-step" {
 		kind += ":" + errorClass(d.Detail)
 	}
-	sig := mode + "|" + min.Shape() + "|" + kind
+	sig := kind + "|" + min.Head() + "|" + mode + "|" + min.Shape()
+	if mode != "instant" && rangeBelowStep(min, p) {
+		// data shape: windows of a range function do not tile the range query (range < step)
+		sig = "range<step|" + sig
+	}
+	if twoShards(min, mode, p) {
+		// data shape: some selector's window reaches across a shard-group boundary
+		sig = "two-shard-window|" + sig
+	}
 	ms := map[string]struct{}{}
 	min.metrics(ms)
 	var series []*SeriesData
@@ -527,6 +580,33 @@ func (r *setRun) report(full, n *Node, mode string, p EvalParams, d *Diff, want,
 		fmt.Printf("DIFF set=%d ingest=%s %s\n  sig: %s\n  full: %s\n  expected: %s\n  got: %s\n", r.set.Index, r.ingest, what, sig, full.String(),
 			strings.Join(want.render(6), "\n            "), strings.Join(got.render(6), "\n            "))
 	}
+}
+
+// twoShards reports whether a data window of the expression (range or look-back, shifted
+// by the offset) contains the shard-group boundary for some evaluation step.
+func twoShards(n *Node, mode string, p EvalParams) bool {
+	var ws [][2]int64
+	n.windows(&ws)
+	from, to := p.Instant, p.Instant
+	if mode != "instant" {
+		from, to = p.Start, p.End
+	}
+	for _, w := range ws {
+		if from-w[0] < shardBoundary && shardBoundary <= to-w[1] {
+			return true
+		}
+	}
+	return false
+}
+
+func rangeBelowStep(n *Node, p EvalParams) bool {
+	if n == nil {
+		return false
+	}
+	if n.Kind == "rfn" && n.Range < p.Step {
+		return true
+	}
+	return rangeBelowStep(n.Child, p) || rangeBelowStep(n.L, p) || rangeBelowStep(n.R, p)
 }
 
 func paramStr(mode string, p EvalParams) string {
@@ -594,6 +674,7 @@ func replay(c *vf.Ctx, bin string) {
 	if !run.load() {
 		return
 	}
+	box.onUp = run.waitVisible
 	c.Eval(1)
 	want, got, d := run.evalMode(w.Node, w.Mode, w.Params)
 	if d == nil {
